@@ -499,6 +499,16 @@ func init() {
 		}
 		return p.mkBool(p.ts.Cmp(OpBvSle, p.i64(a[1]), p.i64(b[1])))
 	}
+	st[V+"Advance"] = func(fr *frame, args []value) value {
+		p := fr.i.p
+		d := p.i64(args[0])
+		if p.clockOffset == nil {
+			p.clockOffset = d
+		} else {
+			p.clockOffset = p.ts.BvBin(OpBvAdd, p.clockOffset, d)
+		}
+		return nil
+	}
 	st[V+"Unix"] = func(fr *frame, args []value) value {
 		// time.Time with the given seconds offset from the engine's clock base
 		p := fr.i.p
